@@ -40,6 +40,11 @@ const DEFAULT_COMPRESSION_LEVEL: u32 = 5;
 /// Default value which seems advised by brotli libraries
 const BROTLI_LOG_WINDOW: u32 = 22;
 
+/// First byte of a "large window" brotli stream, an extension this writer never
+/// uses and which lets a stream of a few bytes declare a window of up to 1 GiB,
+/// allocated by the decoder before any data is produced
+const BROTLI_LARGE_WINDOW_MARKER: u8 = 0x11;
+
 pub struct CompressionConfig {
     compression_level: u32,
 }
@@ -194,7 +199,7 @@ impl<'a, R: 'a + Read> CompressionLayerReader<'a, R> {
     /// `uncompressed_pos` must be a compressed block's starting position
     fn new_decompressor_at<S: Read + Seek>(
         &self,
-        inner: S,
+        mut inner: S,
         uncompressed_pos: u64,
     ) -> Result<brotli::Decompressor<Take<S>>, Error> {
         // Ensure it's a starting position
@@ -215,6 +220,19 @@ impl<'a, R: 'a + Read> CompressionLayerReader<'a, R> {
                 // Use index for faster decompression
                 let compressed_block_size =
                     sizes_info.compressed_block_size_at(uncompressed_pos)? as usize;
+                // Refuse a block (untrusted) announcing a window the writer cannot have used
+                if compressed_block_size > 0 {
+                    let mut first = [0u8; 1];
+                    inner.read_exact(&mut first)?;
+                    inner.seek(SeekFrom::Current(-1))?;
+                    if first[0] == BROTLI_LARGE_WINDOW_MARKER {
+                        return Err(io::Error::new(
+                            io::ErrorKind::InvalidData,
+                            "Large window brotli stream",
+                        )
+                        .into());
+                    }
+                }
                 Ok(brotli::Decompressor::new(
                     // Make the Decompressor work only on the compressed block's bytes, no more
                     inner.take(compressed_block_size as u64),
@@ -908,7 +926,7 @@ impl<'a, R: 'a + Read> Read for CompressionLayerFailSafeReader<'a, R> {
                     cache: vec![0u8; FAIL_SAFE_BUFFER_SIZE],
                     read_offset: 0,
                     cache_filled_offset: 0,
-                    state: Box::new(BrotliState::new(
+                    state: Box::new(BrotliState::new_strict(
                         StandardAlloc::default(),
                         StandardAlloc::default(),
                         StandardAlloc::default(),
@@ -1001,7 +1019,7 @@ impl<'a, R: 'a + Read> Read for CompressionLayerFailSafeReader<'a, R> {
                             read_offset += input_offset;
 
                             // Reset others
-                            state = Box::new(BrotliState::new(
+                            state = Box::new(BrotliState::new_strict(
                                 StandardAlloc::default(),
                                 StandardAlloc::default(),
                                 StandardAlloc::default(),
